@@ -146,6 +146,18 @@ CHECKS["C09"] = {
     "rule": "case = (file, damage per chunk, length change, detached?, wrong data digest?, validator sequence, read sizes). Non-trivial = at least one intact and one damaged chunk, or a truncation inside a chunk; distinct by choice-sequence hash.",
     "assumptions": ["no hash collisions"],
     "runs": [
-        {"bin": "asan/C09", "cases": P(2500, 40000), "procs": P(8, 16), "size": 70, "shrink_budget": 300},
+        {"bin": "asan/C09", "cases": P(6000, 60000), "procs": P(8, 16), "size": 70, "shrink_budget": 300},
+    ],
+}
+
+CHECKS["C10"] = {
+    "level": "exploration",
+    "technique": "exhaustive enumeration of all 2^N validity markings (N <= 10 quick, <= 12 thorough) x 8 limits per generated index, plus random large indexes (up to 6000 chunks) with boundary-fit steering of the rendered text length; oracle = set computation over the reference chunk table (prefix cover, merge, limit, exact string, range index)",
+    "level_text": "For small indexes the marking space is enumerated completely for every limit; for large ones the marking is random and, in most unlimited cases, steered so that a range's text ends exactly at (or one byte around) the 32768/49152/73728-byte buffer sizes of the string builder. Every request is compared with an independent computation: ranges ascending/disjoint/non-adjacent/outside the header, union == extents of a prefix of the missing chunks, limit respected, exact text, range index contents.",
+    "level_note": "Trusted: the chunk table computed from the emitted header. Domain: flags 0/1 with zero-length chunks valid (what every scan establishes); a third of the small cases derive the marking through find_valid_chunks + reset_failed_chunks on a damaged target.",
+    "rule": "case = (index: N, stored sizes, dictionary?) x marking x limit. Non-trivial = request with >= 2 ranges in which at least two adjacent missing chunks were merged into one range; enumerated cases are distinct by construction (index, marking, limit), others by choice-sequence hash.",
+    "assumptions": ["zero-length chunks are never presented as missing (no scan leaves them so)"],
+    "runs": [
+        {"bin": "asan/C10", "cases": P(150, 2500), "procs": P(8, 16), "size": 70, "shrink_budget": 80},
     ],
 }
